@@ -301,6 +301,11 @@ func referenceOfEvent(eventJSON []byte, roomVersion RoomVersion) (eventReference
 	if err != nil {
 		return eventReference{}, err
 	}
+	return referenceOfEventForVersion(eventJSON, verImpl)
+}
+
+// referenceOfEventForVersion is referenceOfEvent for an already resolved room version.
+func referenceOfEventForVersion(eventJSON []byte, verImpl IRoomVersion) (eventReference, error) {
 	redactedJSON, err := verImpl.RedactEventJSON(eventJSON)
 	if err != nil {
 		return eventReference{}, err
@@ -343,11 +348,11 @@ func referenceOfEvent(eventJSON []byte, roomVersion RoomVersion) (eventReference
 		case EventIDFormatV3:
 			encoder = base64.RawURLEncoding.WithPadding(base64.NoPadding)
 		default:
-			return eventReference{}, UnsupportedRoomVersionError{Version: roomVersion}
+			return eventReference{}, UnsupportedRoomVersionError{Version: verImpl.Version()}
 		}
 		eventID = fmt.Sprintf("$%s", encoder.EncodeToString(sha256Hash[:]))
 	default:
-		return eventReference{}, UnsupportedRoomVersionError{Version: roomVersion}
+		return eventReference{}, UnsupportedRoomVersionError{Version: verImpl.Version()}
 	}
 
 	return eventReference{eventID, sha256Hash[:]}, nil
